@@ -108,6 +108,18 @@ RaceLocalMC(x) ==
     \E c \in LCmd1({0, 1, 3, 4}) \cup LCmd2({0, 3, 4}), a \in BOOLEAN, c2 \in Cmd1({0, 1, 2}, {0, 2, 3}) :
         x = Two(Local(c, a), Wire(c2, {"report-status"}, Plain))
 
+\* ---- ref backends --------------------------------------------------------------------------
+\* The compare-and-swap of RecvPack is the contract of *every* ref storage a server repository can
+\* be configured with (files: loose / packed; extensions.refStorage = reftable).  These behaviours
+\* are replayed once per backend: one or two commands with matching, stale, and zero old values
+\* (a create of a ref that exists, a delete / update of one that does not), both capability sets
+\* that are told something, plain / declined / damaged-pack variants; the racing spaces above
+\* (two creates of the same absent ref among them) are replayed per backend as well.
+BackendSeq(x) == WSome(x, Cmd1(OldV, NewV) \cup Cmd2({0, 1}, {0, 3}), CapsRS)
+\* defect model of a backend: the zero id taken as "nothing to compare against" (what None means
+\* in the Python interface) -- a create then overwrites an existing ref and is reported ok
+CasMatchZeroAny(cur, old) == old = 0 \/ cur = old
+
 \* ---- pushes a C git client can produce -----------------------------------------------------
 \* old values are what the server advertised (= the initial state, hence the reference to `ini`,
 \* which Init fixes before it evaluates PushIn); staleness arises only from a racing pusher whose
